@@ -145,10 +145,11 @@ func runC12(r *R) {
 	type reselect struct {
 		do, closed bool
 		count      uint32
+		refuse     bool // the server answers the SELECT with NO: afterwards no mailbox is selected (RFC 9051 6.3.2)
 	}
 	var resel []reselect
 	for i := 0; i < nrounds; i++ {
-		resel = append(resel, reselect{do: t.Choose(3) == 0, closed: t.Choose(2) == 0, count: uint32(t.Choose(40))})
+		resel = append(resel, reselect{do: t.Choose(3) == 0, closed: t.Choose(2) == 0, count: uint32(t.Choose(40)), refuse: t.Choose(4) == 0})
 	}
 	// the server's ordering / interleaving choices are drawn during the run from a private tape
 	// derived from the plan (drawn here so that the plan tape stays the single source of choices)
@@ -210,6 +211,18 @@ func runC12(r *R) {
 					if resel[ri].closed {
 						srv.send("* OK [CLOSED] previous mailbox closed")
 					}
+					if resel[ri].refuse {
+						srv.send(c.Tag + " NO [NONEXISTENT] no such mailbox")
+						// nothing is selected any more: select the first mailbox again for the rounds that follow
+						if c, ok = srv.readCommand(); !ok {
+							return
+						}
+						model.count = 4
+						model.flags = []imap.Flag{imap.FlagSeen, imap.FlagDeleted}
+						model.pflags = []imap.Flag{imap.FlagSeen}
+						srv.send(fmt.Sprintf("* %d EXISTS", model.count), "* FLAGS "+flagListText(model.flags), "* OK [PERMANENTFLAGS "+flagListText(model.pflags)+"] ok", "* OK [UIDVALIDITY 7] ok", "* OK [UIDNEXT 99] ok", c.Tag+" OK [READ-WRITE] selected")
+						continue
+					}
 					model.count = resel[ri].count
 					model.flags = []imap.Flag{imap.FlagSeen, imap.FlagAnswered}
 					model.pflags = []imap.Flag{imap.FlagAnswered}
@@ -268,6 +281,20 @@ func runC12(r *R) {
 					r.Probe("reselect_without_close")
 					want := resel[ri].count
 					data, err := c.Select("Second", nil).Wait()
+					if resel[ri].refuse {
+						r.Probe("reselect_refused")
+						if err == nil {
+							r.Violate("status-mismatch", "Select", "the server answered the SELECT of a second mailbox with NO, the call returned nil")
+						}
+						if st, mb := c.State(), c.Mailbox(); st != imap.ConnStateAuthenticated || mb != nil {
+							r.Violate("state-mirror", "failed reselect", "after a SELECT that the server refused (it sent [CLOSED]: %v) no mailbox is selected, but the client reports state %v, mailbox %+v", resel[ri].closed, st, mb)
+						}
+						if _, err := c.Select("INBOX", nil).Wait(); err != nil {
+							r.Violate("call-failed", "Select", "SELECT after a refused SELECT failed: %v", err)
+							return
+						}
+						continue
+					}
 					if err != nil {
 						r.Violate("call-failed", "Select", "SELECT of a second mailbox failed: %v", err)
 						return
